@@ -5,6 +5,9 @@
   width and every triple: the IEEE pattern that is produced denotes exactly the triple's value, and re-extracting its
   fields (what posit(double) does first) returns the same triple — so the round trip loses nothing before the final
   `convert_`, whose correctness is C01's obligation.
+  Integer casts (`to_short()` … `to_ulong_long()` = `to_integer<Int>()`, the repair of D23): the model `toInteger` takes the
+  integer part from the decoded fields; proved at the end of this file for every configuration and every real-valued
+  encoding: the result is the exact value truncated toward zero whenever that fits the type (signed types: clamped otherwise).
 -/
 import UVerif.Model.PositConv
 import UVerif.Spec.Ieee
@@ -13,6 +16,7 @@ import UVerifProofs.Lemmas.Ieee
 import UVerifProofs.Lemmas.PositArith
 import UVerifProofs.Lemmas.PositDecode
 import UVerifProofs.Lemmas.PositCanon
+import UVerifProofs.Lemmas.PositToInteger
 
 open UVerif UVerif.Posit
 
@@ -181,3 +185,127 @@ theorem C04_posit_native_roundtrip (n es eb mb a : Nat) (hn : 2 ≤ n) (ha : a <
 example : fbitsOf 32 2 ≤ 52 ∧ (decode 32 2 0x4d3c0001).scale = 1 := by decide
 
 end
+
+/-! ### posit → native integer: `to_integer<Int>()` (posit_impl.hpp after the repair of D23) -/
+
+section
+open UVerif.Posit UVerif.ConvPosInt
+
+/-- `z` is a value of the native integer type with `digits` value bits (`numeric_limits<Int>::digits`), signed or unsigned -/
+def C04IntFits (digits : ℕ) (sgn : Bool) (z : ℤ) : Prop :=
+  (if sgn then -((2 ^ digits : ℕ) : ℤ) else 0) ≤ z ∧ z < ((2 ^ digits : ℕ) : ℤ)
+
+instance (digits : ℕ) (sgn : Bool) (z : ℤ) : Decidable (C04IntFits digits sgn z) := by
+  unfold C04IntFits; infer_instance
+
+/-- **posit → integer is truncation toward zero.** For every posit configuration (n ≥ 2, any es — any number of fraction
+    bits), every integer type (any `digits`, signed or unsigned) and every real-valued non-zero encoding whose exact value
+    truncated toward zero fits the type, `to_integer<Int>()` returns exactly that integer. (Before the repair the casts
+    went through double / float / long double and this was false for fbits > 52 / 23 / 63: finding D23.) -/
+theorem C04_posit_to_integer_trunc (n es digits : ℕ) (sgn : Bool) (a : ℕ) (hn : 2 ≤ n) (ha : a < 2 ^ n) (h0 : a ≠ 0)
+    (hnar : a ≠ 2 ^ (n - 1)) (x : ℚ) (hx : positVal n es a = some x) (hfit : C04IntFits digits sgn (truncZ x)) :
+    toInteger n es digits sgn a = some (truncZ x) := by
+  obtain ⟨hv, _, _, hf, _, ht⟩ := decode_value n es a hn ha h0 hnar
+  rw [hx] at hv
+  injection hv with hv
+  have htz := truncZ_tripleVal (decode n es a).sign (decode n es a).scale (decode n es a).fb (decode n es a).frac
+  rw [← ht, ← hv] at htz
+  rw [toInteger_shape n es digits sgn a ha h0 hnar]
+  unfold C04IntFits at hfit
+  rw [htz] at hfit ⊢
+  generalize hM : truncMag (decode n es a).scale (decode n es a).fb (decode n es a).frac = M at *
+  generalize (decode n es a).sign = sg at hfit ⊢
+  by_cases hneg : (decode n es a).scale < 0
+  · have hM0 : M = 0 := by rw [← hM]; exact truncMag_neg hneg hf
+    subst hM0
+    simp [hneg]
+  · obtain ⟨hlo, hhi⟩ := truncMag_bounds (sc := (decode n es a).scale) (by omega) hf
+    rw [hM] at hlo hhi
+    rw [if_neg hneg]
+    have hpd : (0 : ℤ) < ((2 ^ digits : ℕ) : ℤ) := by exact_mod_cast Nat.two_pow_pos digits
+    by_cases hsat : (decode n es a).scale ≥ (digits : ℤ)
+    · have hge : 2 ^ digits ≤ 2 ^ (decode n es a).scale.toNat := Nat.pow_le_pow_right (by decide) (by omega)
+      have hgeZ : ((2 ^ digits : ℕ) : ℤ) ≤ (M : ℤ) := by exact_mod_cast le_trans hge hlo
+      rw [if_pos hsat]
+      cases sg <;> cases sgn <;> simp only [if_true, if_false, Bool.false_eq_true] at hfit ⊢
+      all_goals (congr 1; omega)
+    · have hle : 2 ^ ((decode n es a).scale.toNat + 1) ≤ 2 ^ digits := Nat.pow_le_pow_right (by decide) (by omega)
+      have h1 : (1 : ℤ) ≤ (M : ℤ) := by exact_mod_cast le_trans Nat.one_le_two_pow hlo
+      rw [if_neg hsat]
+      cases sg <;> cases sgn <;> simp only [if_true, if_false, Bool.false_eq_true] at hfit ⊢
+      all_goals first | rfl | (exfalso; omega)
+
+/-- **signed integer types: every real value is covered.** The result is the exact value truncated toward zero, clamped to
+    [−2^digits, 2^digits − 1] — no hypothesis on the magnitude. -/
+theorem C04_posit_to_integer_signed_clamp (n es digits : ℕ) (a : ℕ) (hn : 2 ≤ n) (ha : a < 2 ^ n) (h0 : a ≠ 0)
+    (hnar : a ≠ 2 ^ (n - 1)) (x : ℚ) (hx : positVal n es a = some x) :
+    toInteger n es digits true a = some (max (-((2 ^ digits : ℕ) : ℤ)) (min (((2 ^ digits : ℕ) : ℤ) - 1) (truncZ x))) := by
+  by_cases hfit : C04IntFits digits true (truncZ x)
+  · rw [C04_posit_to_integer_trunc n es digits true a hn ha h0 hnar x hx hfit]
+    unfold C04IntFits at hfit
+    simp only [if_true] at hfit
+    congr 1
+    omega
+  · obtain ⟨hv, _, _, hf, _, ht⟩ := decode_value n es a hn ha h0 hnar
+    rw [hx] at hv
+    injection hv with hv
+    have htz := truncZ_tripleVal (decode n es a).sign (decode n es a).scale (decode n es a).fb (decode n es a).frac
+    rw [← ht, ← hv] at htz
+    rw [toInteger_shape n es digits true a ha h0 hnar]
+    unfold C04IntFits at hfit
+    rw [htz] at hfit ⊢
+    generalize hM : truncMag (decode n es a).scale (decode n es a).fb (decode n es a).frac = M at *
+    generalize (decode n es a).sign = sg at hfit ⊢
+    have hpd : (0 : ℤ) < ((2 ^ digits : ℕ) : ℤ) := by exact_mod_cast Nat.two_pow_pos digits
+    by_cases hneg : (decode n es a).scale < 0
+    · have hM0 : M = 0 := by rw [← hM]; exact truncMag_neg hneg hf
+      subst hM0
+      exfalso; apply hfit
+      cases sg <;> simp
+    · obtain ⟨hlo, hhi⟩ := truncMag_bounds (sc := (decode n es a).scale) (by omega) hf
+      rw [hM] at hlo hhi
+      rw [if_neg hneg]
+      by_cases hsat : (decode n es a).scale ≥ (digits : ℤ)
+      · have hge : 2 ^ digits ≤ 2 ^ (decode n es a).scale.toNat := Nat.pow_le_pow_right (by decide) (by omega)
+        have hgeZ : ((2 ^ digits : ℕ) : ℤ) ≤ (M : ℤ) := by exact_mod_cast le_trans hge hlo
+        rw [if_pos hsat]
+        cases sg <;> simp only [if_true, if_false, Bool.false_eq_true] at hfit ⊢
+        all_goals (congr 1; omega)
+      · have hle : 2 ^ ((decode n es a).scale.toNat + 1) ≤ 2 ^ digits := Nat.pow_le_pow_right (by decide) (by omega)
+        have hltZ : (M : ℤ) < ((2 ^ digits : ℕ) : ℤ) := by exact_mod_cast lt_of_lt_of_le hhi hle
+        exfalso; apply hfit
+        cases sg <;> simp only [if_true, if_false, Bool.false_eq_true] <;> omega
+
+/-- zero converts to 0 for every type; its exact value is 0 -/
+theorem C04_posit_to_integer_zero (n es digits : ℕ) (sgn : Bool) :
+    toInteger n es digits sgn 0 = some 0 ∧ positVal n es 0 = some 0 ∧ truncZ 0 = 0 := by
+  refine ⟨by unfold toInteger; simp, by unfold positVal; simp, by unfold truncZ; simp [Rat.floor]⟩
+
+/-- the six integer kinds of the transcript (`to_short` … `to_ulong_long` on LP64) -/
+theorem C04_posit_to_int_kind (n es : ℕ) (kind : String) (digits : ℕ) (sgn : Bool) (hk : intDigits kind = some (digits, sgn))
+    (a : ℕ) (hn : 2 ≤ n) (ha : a < 2 ^ n) (h0 : a ≠ 0) (hnar : a ≠ 2 ^ (n - 1)) (x : ℚ) (hx : positVal n es a = some x)
+    (hfit : C04IntFits digits sgn (truncZ x)) :
+    toIntKind n es kind a = some (truncZ x) := by
+  unfold toIntKind
+  rw [hk]
+  exact C04_posit_to_integer_trunc n es digits sgn a hn ha h0 hnar x hx hfit
+
+/-- the old witness of D23: posit<64,3> 0xc000000000000008 = −0.99999999999999997… ↦ 0 for int and unsigned
+    (`int(to_double())` returned −1) -/
+example : toInteger 64 3 31 true 0xc000000000000008 = some 0 ∧ toInteger 64 3 32 false 0xc000000000000008 = some 0 := by decide
+
+/-- non-trivial positive instances, posit<64,3> (58 fraction bits): 2^31 − 2^-25 ↦ 2147483647 (the double detour gave 2^31,
+    out of range for int); 123456789 − 2^-29 ↦ 123456788 (the detour gave 123456789); the negative of the first ↦ −2147483647;
+    the hypotheses of `C04_posit_to_integer_trunc` hold there (the truncated value, computed on naturals, fits int) -/
+example : toInteger 64 3 31 true 0x7b7fffffffffffff = some 2147483647 ∧ toInteger 64 3 31 true 0x796b79a29fffffff = some 123456788 ∧
+    toInteger 64 3 31 true 0x8480000000000001 = some (-2147483647) ∧ toInteger 64 3 32 false 0x7b80000000000001 = some 2147483648 ∧
+    C04IntFits 31 true (truncDec 64 3 0x7b7fffffffffffff) ∧ ¬ C04IntFits 31 true (truncDec 64 3 0x7b80000000000000) := by decide
+
+/-- saturation (signed, `C04_posit_to_integer_signed_clamp`): 2^31 and 2^31 + 2^-24 ↦ INT_MAX, −2^31 ↦ INT_MIN (exact) -/
+example : toInteger 64 3 31 true 0x7b80000000000000 = some 2147483647 ∧ toInteger 64 3 31 true 0x7b80000000000001 = some 2147483647 ∧
+    toInteger 64 3 31 true 0x8480000000000000 = some (-2147483648) := by decide
+
+example : toIntKind 64 3 "i32" 0xc000000000000008 = some 0 ∧ toIntKind 64 3 "u64" 0x7b80000000000001 = some 2147483648 := by decide
+
+end
+
